@@ -154,6 +154,9 @@ func addrsString(a []resolver.Address) string {
 			s += ","
 		}
 		s += x.Addr
+		if x.ServerName != "" {
+			s += "/" + x.ServerName
+		}
 	}
 	return s + "]"
 }
